@@ -45,3 +45,11 @@ pub open spec fn decoded_as(txt: Seq<u8>, ps: Seq<TxtProperty>) -> bool {
     && (exists|n: int| is_total(txt, n) && ps.len() <= n && (keys_valid(txt, n) ==> ps.len() == n && forall|k: int| 0 <= k < n ==> kv_split(str_k(txt, k), #[trigger] ps[k])))
     && (forall|i: int| 0 <= i < ps.len() ==> from_record(txt, #[trigger] ps[i]))
 }
+// `vec.iter().find(|&x| P(x))`: the first element satisfying P
+#[verifier::external_body]
+pub fn vx_find_first_prop<'a, F: Fn(&TxtProperty) -> bool>(v: &'a Vec<TxtProperty>, f: F, p: Ghost<spec_fn(TxtProperty) -> bool>) -> (r: Option<&'a TxtProperty>)
+    requires forall|i: int| 0 <= i < v@.len() ==> f.requires((&#[trigger] v@[i],)), forall|x: &TxtProperty, b: bool| #[trigger] f.ensures((x,), b) ==> b == p@(*x),
+    ensures
+        r is Some ==> exists|i: int| 0 <= i < v@.len() && #[trigger] v@[i] == *r->Some_0 && p@(v@[i]) && forall|j: int| 0 <= j < i ==> !p@(#[trigger] v@[j]),
+        r is None ==> forall|i: int| 0 <= i < v@.len() ==> !p@(#[trigger] v@[i]),
+{ unimplemented!() }
